@@ -261,6 +261,15 @@ def stale_loop_values(fn, record_ctors):
 
 
 
+def _anc16(mod: Any, n: ast.AST, stop: Any) -> List[ast.AST]:
+    out = []
+    p = mod.parents.get(n)
+    while p is not None and p is not stop:
+        out.append(p)
+        p = mod.parents.get(p)
+    return out
+
+
 def run(ctx: Any, prog: Program) -> None:
     db = prog.module('_engine_db')
     fgd = prog.module('fgd')
@@ -799,6 +808,30 @@ def run(ctx: Any, prog: Program) -> None:
                 ctx.check('C16.Q3', False, fgd, c, f'`{U(c.args[0])[:60]}` writes a helper name that is not spelled out without parentheses: the header parser overwrites a pending unknown helper name when the next name '
                           'arrives, so this helper (and the arguments of the following one) are misread unless it is the last helper', func='EntityDef.export', text=f'helper written as `{U(c.args[0])[:40]}`')
 
+    # ---- Q3 (export order): a class is written after all its bases -----------------------------------------------------------------------------
+    # sorted_ents works in passes: a pass collects the entities whose bases were all yielded in EARLIER passes, sorts that batch by name and
+    # yields it.  The sort is only harmless because nothing in a batch depends on anything else in it - which holds as long as the set that
+    # "ready" is tested against is not extended while the pass is still collecting.
+    se = fgd.func('FGD.sorted_ents')
+    ready_sets = {c.comparators[0].id for c in ast.walk(se) if isinstance(c, ast.Compare) and len(c.ops) == 1 and isinstance(c.ops[0], ast.NotIn) and isinstance(c.comparators[0], ast.Name)
+                  and isinstance(c.left, ast.Name)}
+    scan_loops = [l for l in ast.walk(se) if isinstance(l, ast.For) and any(isinstance(c, ast.Compare) and isinstance(c.ops[0], ast.NotIn) and isinstance(c.comparators[0], ast.Name) and c.comparators[0].id in ready_sets for c in ast.walk(l))]
+    sorts_batch = any(isinstance(c, ast.Call) and ((isinstance(c.func, ast.Attribute) and c.func.attr == 'sort') or dotted(c.func) == 'sorted') for c in ast.walk(se))
+    ctx.shape('C16.Q3', bool(scan_loops) and sorts_batch, fgd, se, 'sorted_ents: a scanning loop testing `base not in <done set>` and a sort of the batch', func='FGD.sorted_ents', text='sorted_ents passes')
+    if scan_loops:
+        outer = max(scan_loops, key=lambda l: sum(1 for _ in ast.walk(l)))
+        # the set(s) that decide readiness: `base not in X` where X is never the set being iterated
+        it_names = {x.id for x in ast.walk(outer.iter) if isinstance(x, ast.Name)}
+        done_sets = {c.comparators[0].id for c in ast.walk(outer) if isinstance(c, ast.Compare) and isinstance(c.ops[0], ast.NotIn) and isinstance(c.comparators[0], ast.Name)} - it_names
+        grown = [c for c in ast.walk(outer) if isinstance(c, ast.Call) and isinstance(c.func, ast.Attribute) and c.func.attr in ('add', 'update') and isinstance(c.func.value, ast.Name) and c.func.value.id in done_sets
+                 and any(isinstance(t_, ast.If) and any(isinstance(x, ast.Name) and x.id != c.func.value.id for x in ast.walk(t_.test)) for t_ in _anc16(fgd, c, outer)) or
+                 (isinstance(c, ast.Call) and isinstance(c.func, ast.Attribute) and c.func.attr in ('add', 'update') and isinstance(c.func.value, ast.Name) and c.func.value.id in done_sets)]
+        # only a growth that happens when an entity was found ready matters (deferring adds to other sets)
+        grown = [c for c in grown if not any(isinstance(a_, ast.If) and any(isinstance(x, ast.Compare) and isinstance(x.ops[0], ast.NotIn) for x in ast.walk(a_.test)) and c in [y for b in a_.body for y in ast.walk(b)] for a_ in _anc16(fgd, c, outer))]
+        ctx.check('C16.Q3', not grown, fgd, grown[0] if grown else outer, f'sorted_ents extends the set it tests readiness against (`{U(grown[0])[:40] if grown else ""}`) while the pass is still collecting: an entity visited later in the same '
+                  'pass joins the batch of its own base, the batch is then sorted by name, and a class whose name sorts first is written before the base it refers to (the exported text does not parse)',
+                  func='FGD.sorted_ents', text='readiness set grows only between passes')
+
     # ---- Q5 --------------------------------------------------------------------------------------------------
     edb = db.methods('EngineDB')
     pb, ge, gf = edb['_parse_block'], edb['get_ent'], edb['get_fgd']
@@ -863,6 +896,19 @@ def run(ctx: Any, prog: Program) -> None:
     gsrc = U(ge)
     ok = 'if isinstance(ent_info, EntityDef):\n        return ent_info' in gsrc and 'self._parse_block(ent_info)' in gsrc and 'classname.casefold()' in gsrc
     ctx.shape('C16.Q5', ok, db, ge, 'get_ent returns the cached definition or parses exactly the block the placeholder names', func='EngineDB.get_ent', text='get_ent cache / placeholder')
+    # names decoded from the database keep their spelling: only the *lookup key* is case-folded.  Folding the decoded text itself (to "do it
+    # once") also lower-cases the names that are kept for _parse_block and end up as EntityDef.classname (`npc_Xort` -> `npc_xort`)
+    un_fn = db.func('unserialise')
+    for a in walk_no_nested(un_fn):
+        if isinstance(a, ast.Assign) and any(isinstance(c, ast.Call) and isinstance(c.func, ast.Attribute) and c.func.attr == 'decode' for c in ast.walk(a.value)):
+            folds = [c for c in ast.walk(a.value) if isinstance(c, ast.Call) and isinstance(c.func, ast.Attribute) and c.func.attr in ('casefold', 'lower', 'upper', 'title', 'capitalize', 'swapcase')]
+            tnames = {t.id for t in a.targets if isinstance(t, ast.Name)}
+            # harmless when the folded text is used as dictionary keys only
+            other_uses = [n for n in walk_no_nested(un_fn) if isinstance(n, ast.Name) and n.id in tnames and isinstance(n.ctx, ast.Load)
+                          and not (isinstance(db.parents.get(n), ast.Subscript) and db.parents.get(n).slice is n) and not (isinstance(db.parents.get(n), ast.For) and db.parents.get(n).iter is n)]
+            ctx.check('C16.Q5', not (folds and other_uses), db, folds[0] if folds else a, f'unserialise case-folds the names it decodes (`{U(a.value)[:60]}`) and keeps that list for later (`{U(db.parents.get(other_uses[0]))[:50] if other_uses else ""}`): '
+                      'the entities parsed from the block get the folded text as their classname, so a mixed-case classname does not survive the database', func='unserialise', text='decoded names kept as stored')
+
     # placeholders are block *indexes*, and the first block has index 0: a lookup result may be told apart from "absent" only with `in`,
     # `is None` or isinstance - its truthiness makes every entity of block 0 look missing until something else has parsed that block
     idx_tables: Set[str] = set()
@@ -907,6 +953,8 @@ def run(ctx: Any, prog: Program) -> None:
 
 
 MUTANTS: List[Dict[str, Any]] = [
+    {'id': 'sorted_ents_marks_done_in_pass', 'file': 'fgd.py', 'find': "                if ready:\n                    batch.append(ent)\n", 'replace': "                if ready:\n                    batch.append(ent)\n                    done.add(ent)\n", 'expect': 'C16.Q3'},
+    {'id': 'db_classnames_folded_on_read', 'file': '_engine_db.py', 'find': "        classnames = file.read(cls_size).decode('utf8').split(STRING_SEP)", 'replace': "        classnames = file.read(cls_size).decode('utf8').casefold().split(STRING_SEP)", 'expect': 'C16.Q5'},
     {'id': 'unknown_helper_bare_without_args', 'file': 'fgd.py', 'find': """                file.write(f'\\n\\t{helper.name}({", ".join(args)})')""", 'replace': """                file.write(f'\\n\\t{helper.name}({", ".join(args)})' if args else f'\\n\\t{helper.name}')""", 'expect': 'C16.Q3'},
     {'id': 'get_ent_placeholder_truthiness', 'file': '_engine_db.py', 'find': "        ent_info = self.ent_map[classname.casefold()]  # Or KeyError if not present.\n", 'replace': "        ent_info = self.ent_map.get(classname.casefold())\n        if not ent_info:\n            raise KeyError(classname)\n", 'expect': 'C16.Q5'},
     {'id': 'ok_get_ent_placeholder_is_none', 'file': '_engine_db.py', 'find': "        ent_info = self.ent_map[classname.casefold()]  # Or KeyError if not present.\n", 'replace': "        ent_info = self.ent_map.get(classname.casefold())\n        if ent_info is None:\n            raise KeyError(classname)\n", 'expect': None},
